@@ -325,6 +325,18 @@ def observer_summary(ctx, rid, f, path, key, value, kind):
     # Some arm only: bucket increment
     # the branch on the scan's result (directly after the call, or — when the scan sits in a helper — wherever its value is finally tested)
     sw = [bi for bi in b.reachable_blocks() if (lambda si_: si_ and si_[0][0] == "discr" and peel(si_[0][1]) == c.result_term())(b.switch_info(bi))]
+    pp_false = None
+    if scan.get("kind") == "partition_point":
+        # the found index i is a bucket only when i < len(bounds) (or bounds.get(i) is Some): that test plays the role of the scan's Some arm
+        for bi in b.reachable_blocks():
+            be = b.bool_edges(bi)
+            if be and be[0][0] == "binop" and be[0][1] in ("Lt", "Gt", "Ne"):
+                x, y = (be[0][2], be[0][3]) if be[0][1] != "Gt" else (be[0][3], be[0][2])
+                if peel(x) == c.result_term() and is_call(peel(y), ["slice::len", "Vec::len"]) and peel(peel(y)[2][0], transparent=["Deref::deref"]) == peel(scan["bounds"]):
+                    sw, pp_false = [bi], be[2]
+            si_ = b.switch_info(bi)
+            if si_ and si_[0][0] == "discr" and is_call(peel(si_[0][1], transparent=[]), ["slice::get", "Vec::get"]) and peel(peel(si_[0][1], transparent=[])[2][1]) == c.result_term():
+                sw, pp_false = [bi], ([t for v, t in si_[1] if v == 0] or [si_[2]])[0]
     if len(sw) != 1:
         ctx.ob(rid, key + "|bucket-inc-in-some-arm", False, "the result of the scan must be tested exactly once (found %d tests)" % len(sw), site=c.span)
         return None
@@ -332,10 +344,22 @@ def observer_summary(ctx, rid, f, path, key, value, kind):
     si = b.switch_info(swb)
     some_t = [t for v, t in si[1] if v == 1]
     none_t = [t for v, t in si[1] if v == 0] or [si[2]]
+
+    def only_when_matched(blk):
+        """blk runs only when a bound matched."""
+        if pp_false is not None:
+            # path-sensitively: nothing reachable from the `no such bucket` edge (the Option built there is None)
+            return blk not in b.reach_ps(pp_false)
+        return bool(some_t) and b.edge_dominates(swb, some_t[0], blk)
     # the matched index: (i, &bound).0 for enumerate().filter().next() / find, the position itself for position()
     idx_terms = [("field", ("field", ("downcast", c.result_term(), "Some"), "0"), "0")] if scan.get("kind") != "position" else [("field", ("downcast", c.result_term(), "Some"), "0")]
+    if scan.get("kind") == "partition_point":
+        idx_terms = [c.result_term()]
 
     def is_idx(t):
+        if scan.get("kind") == "partition_point":
+            from pvrules import seqeval as _sq
+            return peel(_sq._unwrap_payload(t, c.result_term(), b)) == c.result_term()
         t = peel(t)
         # normalise the discriminated place to the scan's result
         if isinstance(t, tuple) and t and t[0] == "field":
@@ -350,7 +374,7 @@ def observer_summary(ctx, rid, f, path, key, value, kind):
     if kind == "shared":
         incs = [x for x in b.calls_to(["Atomic::inc_by", "AtomicU64::inc_by_with_ordering"]) if is_call(peel(x.args[0], transparent=[]), ["Index::index"]) and
                 peel(peel(x.args[0], transparent=[])[2][0])[0] == "field" and peel(peel(x.args[0], transparent=[])[2][0])[2] == "buckets"]
-        ok = len(incs) == 1 and some_t and b.edge_dominates(swb, some_t[0], incs[0].bb) and is_idx(peel(incs[0].args[0], transparent=[])[2][1]) and const_int(incs[0].args[1]) == 1
+        ok = len(incs) == 1 and only_when_matched(incs[0].bb) and is_idx(peel(incs[0].args[0], transparent=[])[2][1]) and const_int(incs[0].args[1]) == 1
         ctx.ob(rid, key + "|bucket-inc-in-some-arm", ok, "the selected bucket (index of the match) is incremented by 1, only when a bound matched", site=incs[0].span if incs else c.span)
         sums = [x for x in b.calls_to("Atomic::inc_by") if peel(x.args[0])[0] == "field" and peel(x.args[0])[2] == "sum"]
         cnts = [x for x in b.calls_to(["AtomicU64::inc_by_with_ordering", "Atomic::inc_by"]) if peel(x.args[0])[0] == "field" and peel(x.args[0])[2] == "count"]
@@ -366,7 +390,7 @@ def observer_summary(ctx, rid, f, path, key, value, kind):
         if len(bk) == 1:
             tgt = bk[0][1]
             im = tgt[1] if tgt[0] == "deref" else tgt
-            okb = is_call(im, "IndexMut::index_mut") and peel(im[2][0]) == SELF_FIELD("counts") and is_idx(im[2][1]) and bool(some_t) and b.edge_dominates(swb, some_t[0], bk[0][0])
+            okb = is_call(im, "IndexMut::index_mut") and peel(im[2][0]) == SELF_FIELD("counts") and is_idx(im[2][1]) and only_when_matched(bk[0][0])
             v = bk[0][2]
             okb = okb and v[0] == "field" and v[1][0] == "binop" and v[1][1] in ("AddWithOverflow", "Add") and const_int(v[1][3]) == 1
         ctx.ob(rid, key + "|bucket-inc-in-some-arm", okb, "the selected local bucket counter is incremented by 1, only when a bound matched", site=c.span)
